@@ -423,25 +423,29 @@ Definition b_intact (b : bstate) : Prop :=
   (forall x, nmem x (b_read b) = (x <? b_dec b)) /\
   (forall x, nmem x (b_read b) = true -> nmem x (b_blocks b) = true).
 
-(* every block of the file can be read at any time: a plain file, or a streamed file whose drops were
-   disabled before anything was dropped *)
+(* every block of the file can be read at any time: a plain file, a streamed file (sequential decoder) whose drops
+   were disabled before anything was dropped, or a tar member (every miss reads all its blocks again) *)
 Definition reads_total (b : bstate) : Prop :=
-  b_stream b = false \/ (b_stream b = true /\ b_drop b = false /\ b_intact b).
+  b_stream b = false \/ (b_stream b = true /\ b_kind b = 0 /\ b_drop b = false /\ b_intact b) \/
+  (b_stream b = true /\ b_kind b = 2).
 
 Lemma reads_total_init_plain : reads_total (b_init false).
 Proof. left. reflexivity. Qed.
+
+Lemma reads_total_init_tar : reads_total b_init_tar.
+Proof. right. right. split; reflexivity. Qed.
 
 Lemma b_intact_lru_put bo b : b_intact b -> b_intact (b_lru_put bo b).
 Proof. intro I. exact I. Qed.
 
 Lemma b_stream_loop_total fuel refd : forall b bo bo_at old,
-  b_stream b = true -> b_drop b = false -> b_intact b ->
+  b_stream b = true -> b_kind b = 0 -> b_drop b = false -> b_intact b ->
   bo_at <= b_dec b -> b_dec b <= bo_at + 1 -> b_dec b <= bo ->
   (N.to_nat (bo + 1 - bo_at) < fuel)%nat ->
   exists b', b_stream_loop fuel refd b bo bo_at old = (b', BFound) /\
-             b_stream b' = true /\ b_drop b' = false /\ b_intact b'.
+             b_stream b' = true /\ b_kind b' = 0 /\ b_drop b' = false /\ b_intact b'.
 Proof.
-  induction fuel as [|k IH]; intros b bo bo_at old ST DR (I1 & I2) L1 L2 L3 FU; [lia|].
+  induction fuel as [|k IH]; intros b bo bo_at old ST KD DR (I1 & I2) L1 L2 L3 FU; [lia|].
   cbn [b_stream_loop]. destruct (N.leb_spec bo_at bo) as [Q|Q]; [|lia].
   destruct (nmem bo_at (b_read b)) eqn:M.
   - (* already decoded: bo_at = dec - 1 *)
@@ -449,9 +453,10 @@ Proof.
     destruct (N.eqb_spec bo_at bo); [lia|].
     apply IH; cbn; auto; try lia. split; assumption.
   - rewrite I1 in M. apply N.ltb_ge in M. assert (E : b_dec b = bo_at) by lia.
-    cbn [b_cnt_up b_dec]. rewrite E, N.eqb_refl. cbn [negb].
+    cbn [b_cnt_up b_dec b_kind]. rewrite KD. cbn [N.eqb]. rewrite E, N.eqb_refl. cbn [negb].
     set (b1 := b_store bo_at _).
     assert (ST1 : b_stream b1 = true) by exact ST.
+    assert (KD1 : b_kind b1 = 0) by reflexivity.
     assert (DR1 : b_drop b1 = false) by exact DR.
     assert (IN1 : b_intact b1).
     { subst b1. unfold b_store, b_lru_put. split; cbn [b_read b_dec b_blocks].
@@ -465,21 +470,33 @@ Proof.
     + apply IH; auto; cbn; try lia.
 Qed.
 
+Lemma fold_store_only_fields l : forall b,
+  b_stream (fold_left (fun st x => b_store_only x st) l b) = b_stream b /\
+  b_kind (fold_left (fun st x => b_store_only x st) l b) = b_kind b /\
+  b_drop (fold_left (fun st x => b_store_only x st) l b) = b_drop b /\
+  b_lru (fold_left (fun st x => b_store_only x st) l b) = b_lru b /\
+  b_dec (fold_left (fun st x => b_store_only x st) l b) = b_dec b.
+Proof.
+  induction l as [|x l IH]; intro b; cbn [fold_left]; [auto|]. destruct (IH (b_store_only x b)) as (A1 & A2 & A3 & A4 & A5).
+  rewrite A1, A2, A3, A4, A5. auto.
+Qed.
+
 Lemma b_read_block_total refd filesz last b bo : reads_total b -> bo <= last -> 0 < filesz ->
   exists b', b_read_block refd filesz last b bo = (b', BFound) /\ reads_total b'.
 Proof.
   intros T L F. unfold b_read_block. destruct (N.ltb_spec last bo); [lia|].
   destruct (nmem bo (b_lru b)) eqn:ML.
-  { eexists. split; [reflexivity|]. destruct T as [T|(T1 & T2 & T3)]; [left; exact T|right; repeat split; auto; apply T3]. }
+  { eexists. split; [reflexivity|].
+    destruct T as [T|[(T1 & T2 & T3 & T4)|(T1 & T2)]]; [left; exact T|right; left; repeat split; auto; apply T4|right; right; auto]. }
   destruct (N.eqb_spec filesz 0); [lia|].
-  destruct T as [T|(T1 & T2 & (I1 & I2))].
+  destruct T as [T|[(T1 & KD & T2 & (I1 & I2))|(T1 & KD)]].
   - (* plain *)
     cbn [b_cnt_up b_read b_blocks b_stream]. rewrite T.
     destruct (nmem bo (b_read b)); [destruct (nmem bo (b_blocks b))|]; cbn [b_stream]; rewrite ?T;
       eexists; (split; [reflexivity|left; cbn; rewrite ?T; reflexivity]).
-  - cbn [b_cnt_up b_read b_blocks b_stream]. rewrite T1.
+  - cbn [b_cnt_up b_read b_blocks b_stream b_kind]. rewrite T1, KD. cbn [N.eqb].
     destruct (nmem bo (b_read b)) eqn:MR.
-    + rewrite (I2 _ MR). eexists. split; [reflexivity|]. right. repeat split; auto.
+    + rewrite (I2 _ MR). eexists. split; [reflexivity|]. right. left. repeat split; auto.
     + pose proof MR as MR'. rewrite I1 in MR'. apply N.ltb_ge in MR'.
       set (b0 := b_cnt_up e_miss (b_cnt_up e_lru_miss b)).
       assert (IN0 : b_intact b0) by (split; assumption).
@@ -492,9 +509,15 @@ Proof.
           assert (B : nmax (b_read b) <= b_dec b - 1).
           { apply nmax_le. intros x X. rewrite I1 in X. apply N.ltb_lt in X. lia. }
           lia. }
-      destruct (b_stream_loop_total (S (S (N.to_nat (bo - m)))) refd b0 bo m m T1 T2 IN0 (proj1 M1) (proj2 M1) MR' ltac:(lia))
-        as (b' & E & S' & D' & I').
-      exists b'. split; [exact E|]. right. auto.
+      destruct (b_stream_loop_total (S (S (N.to_nat (bo - m)))) refd b0 bo m m T1 KD T2 IN0 (proj1 M1) (proj2 M1) MR' ltac:(lia))
+        as (b' & E & S' & K' & D' & I').
+      exists b'. split; [exact E|]. right. left. auto.
+  - (* a tar member *)
+    cbn [b_cnt_up b_read b_blocks b_stream b_kind]. rewrite T1, KD. cbn [N.eqb].
+    destruct (nmem bo (b_read b)); [destruct (nmem bo (b_blocks b))|]; cbn [b_stream b_kind]; rewrite ?T1, ?KD; cbn [N.eqb];
+      eexists; (split; [reflexivity|]); right; right;
+      try (match goal with |- context [fold_left ?g ?l ?x] => destruct (fold_store_only_fields l x) as (A1 & A2 & _) end;
+           rewrite A1, A2); cbn; auto.
 Qed.
 
 (* ================================================================ Part 3: LineReader *)
@@ -1135,9 +1158,10 @@ Section LineReaderProofs.
 
   Lemma b_drop_block_total refd b bo : reads_total b -> reads_total (b_drop_block refd b bo).
   Proof.
-    intros [T|(T1 & T2 & T3)]; unfold b_drop_block.
+    intros [T|[(T1 & KD & T2 & T3)|(T1 & KD)]]; unfold b_drop_block.
     - destruct (negb (b_drop b)); [left; exact T|left; exact T].
-    - rewrite T2. right. auto.
+    - rewrite T2. right. left. auto.
+    - destruct (negb (b_drop b)); right; right; auto.
   Qed.
 
   Lemma lr_drop_line_tot st s extra : lr_tot st -> lr_tot (lr_drop_line bs st s extra).
